@@ -29,6 +29,14 @@ package main
 // server's handle table must be empty.
 //
 // Keys: multi/<call>[/<open mode>]/<site>. A failing history is shrunk step by step.
+//
+// Model: the same history - the calls that were made, in the driver's token syntax - goes to the Lean driver op `mh.run`
+// (Sftp/Driver/MultiHandle.lean: the inode specification of Sftp/Model/MultiHandle.lean, to which the model of the
+// request server over InMemHandler is proved equal in Props/C01Multi.lean), one line per history, all histories of a run
+// in one call of the driver. What every call returned (count, end-of-file flag, hash of the bytes, error class, File
+// offset afterwards) and what was then seen of the served file (every name on the server side, ReadAt of size+1 bytes
+// through every open File with read access) is compared token by token; the first difference of a history is a failure
+// of kind "correspondence" with key multi/model/<call>.
 
 import (
 	"bytes"
@@ -38,7 +46,9 @@ import (
 	"math/rand"
 	"os"
 	"path/filepath"
+	"sort"
 	"strings"
+	"sync"
 
 	"github.com/pkg/sftp"
 
@@ -374,6 +384,7 @@ type xfMultiResult struct {
 	SetupErr error
 	Hung     bool
 	Marks    map[string]int
+	Trace    xfMHTrace // the calls that were made and what they returned, in the syntax of the driver op mh.run
 }
 
 type xfMSlot struct {
@@ -399,6 +410,17 @@ func xfRunMulti(mc xfMultiCase, real *xfReal, dir string, slot int) (res xfMulti
 	kase := lib.NewCase(xfClass(mc.Srv) + "/multi") // hang account of this history (lib/budget.go)
 	xfInflight(slot, mc)
 	res.Marks = map[string]int{}
+	res.Trace.Flen = "-"
+	if mc.FileLen >= 0 {
+		res.Trace.Flen = fmt.Sprint(mc.FileLen)
+	}
+	defer func() {
+		if res.SetupErr == nil {
+			xfMHModel.add(mc, res.Trace)
+		}
+	}()
+	// rec: one call of the history as the model's token, and what the implementation answered
+	rec := func(at int, kind, tok, impl string) { res.Trace.add(at, kind, tok, impl) }
 	if real == nil || mc.Srv.Kind == "peer" {
 		res.SetupErr = errors.New("a multi-handle history needs a real server")
 		return
@@ -462,6 +484,12 @@ func xfRunMulti(mc xfMultiCase, real *xfReal, dir string, slot int) (res xfMulti
 			want, terr := os.ReadFile(twin[i])
 			got, serr := real.Get(nm[i])
 			switch {
+			case serr == nil:
+				rec(at, xfMHKind(mc, at), "cat:"+nm[i], fmt.Sprintf("%d:%d", len(got), xfHash(got)))
+			case errors.Is(serr, os.ErrNotExist):
+				rec(at, xfMHKind(mc, at), "cat:"+nm[i], "notExist")
+			}
+			switch {
 			case terr != nil && !os.IsNotExist(terr):
 				res.SetupErr = fmt.Errorf("twin: %v", terr)
 				return false
@@ -490,6 +518,9 @@ func xfRunMulti(mc xfMultiCase, real *xfReal, dir string, slot int) (res xfMulti
 			var n int
 			var err error
 			ok, pn := xfGuardK(kase, func() { n, err = s.f.ReadAt(buf, 0) })
+			if ok && pn == nil {
+				rec(at, xfMHKind(mc, at), fmt.Sprintf("ra:%d:%d:0", h, len(buf)), xfMHRead(n, buf, err, "*"))
+			}
 			switch {
 			case !ok:
 				hang(at, key+"/handle-read")
@@ -531,6 +562,7 @@ func xfRunMulti(mc xfMultiCase, real *xfReal, dir string, slot int) (res xfMulti
 				fail(i, key+"/panic", "the open panicked", nil, fmt.Sprint(pn))
 				return
 			}
+			rec(i, "open", fmt.Sprintf("o:%d:%s:%s", st.H, nm[st.Name], xfMHFlags(m.Wire)), xfMHErr(oerr, "ok"))
 			flags := m.Flags &^ os.O_APPEND
 			if m.Create {
 				flags = os.O_RDWR | os.O_CREATE | os.O_TRUNC
@@ -578,6 +610,9 @@ func xfRunMulti(mc xfMultiCase, real *xfReal, dir string, slot int) (res xfMulti
 			ok, pn := xfGuardK(kase, func() { cerr = s.f.Close() })
 			s.tw.Close()
 			slots[st.H] = nil
+			if ok && pn == nil {
+				rec(i, "close", fmt.Sprintf("cl:%d", st.H), xfMHErr(cerr, "ok"))
+			}
 			switch {
 			case !ok:
 				hang(i, key)
@@ -621,6 +656,17 @@ func xfRunMulti(mc xfMultiCase, real *xfReal, dir string, slot int) (res xfMulti
 					serr = cli.Remove(pa)
 				}
 			})
+			if ok && pn == nil {
+				tok := map[string]string{"link": "ln", "rename": "rn", "rm": "rm"}[st.K]
+				if st.K == "rename" && eb == nil {
+					tok = "prn"
+				}
+				tok += ":" + nm[a]
+				if st.K != "rm" {
+					tok += ":" + nm[b]
+				}
+				rec(i, st.K, tok, xfMHErr(serr, "ok"))
+			}
 			switch st.K {
 			case "link":
 				terr = os.Link(twin[a], twin[b])
@@ -742,6 +788,33 @@ func xfRunMulti(mc xfMultiCase, real *xfReal, dir string, slot int) (res xfMulti
 				fail(i, key+"/panic", "the call panicked", nil, fmt.Sprint(pn))
 				return
 			}
+			{
+				// the call as the model's token and what it returned (the File offset afterwards: Seek(0, SeekCurrent) is
+				// answered by the File itself)
+				at := "*"
+				if o, e := f.Seek(0, io.SeekCurrent); e == nil {
+					at = fmt.Sprint(o)
+				}
+				switch st.K {
+				case "r":
+					rec(i, st.K, fmt.Sprintf("r:%d:%d", st.H, st.N), xfMHRead(int(sn), sdata, serr, at))
+				case "ra":
+					rec(i, st.K, fmt.Sprintf("ra:%d:%d:%d", st.H, st.N, st.Off), xfMHRead(int(sn), sdata, serr, at))
+				case "wt":
+					// (where a concurrent WriteTo leaves the offset is C12's)
+					rec(i, st.K, fmt.Sprintf("wt:%d", st.H), xfMHErr(serr, fmt.Sprintf("%d:%d@*", sn, xfHash(sdata))))
+				case "w", "rf", "rfc":
+					rec(i, st.K, fmt.Sprintf("w:%d:%d:%d", st.H, st.N, st.Seed), xfMHErr(serr, fmt.Sprintf("%d@%s", sn, at)))
+				case "wa":
+					rec(i, st.K, fmt.Sprintf("wa:%d:%d:%d:%d", st.H, st.N, st.Seed, st.Off), xfMHErr(serr, fmt.Sprintf("%d@%s", sn, at)))
+				case "sk":
+					rec(i, st.K, fmt.Sprintf("sk:%d:%d:%d", st.H, st.Off, st.Wh), xfMHErr(serr, fmt.Sprint(sn)))
+				case "tr":
+					rec(i, st.K, fmt.Sprintf("tr:%d:%d", st.H, st.N), xfMHErr(serr, "ok@"+at))
+				case "st":
+					rec(i, st.K, fmt.Sprintf("st:%d", st.H), xfMHErr(serr, fmt.Sprintf("%d@%s", sn, at)))
+				}
+			}
 			if s.truncatedUnder {
 				res.Marks["call="+st.K+"|through-a-File-that-was-open-when-the-file-was-opened-again-with-O_TRUNC"]++
 			}
@@ -817,7 +890,9 @@ func xfRunMulti(mc xfMultiCase, real *xfReal, dir string, slot int) (res xfMulti
 			switch {
 			case st.K == "wt":
 				// (where a concurrent WriteTo leaves the offset is C12's: known finding F12; the two go on from one position)
-				if _, e := f.Seek(to, io.SeekStart); e != nil {
+				p, e := f.Seek(to, io.SeekStart)
+				rec(i, st.K, fmt.Sprintf("sk:%d:%d:0", st.H, to), xfMHErr(e, fmt.Sprint(p)))
+				if e != nil {
 					fail(i, key+"/offset", "Seek to the end of what WriteTo delivered failed", "<nil>", e.Error())
 					return
 				}
@@ -845,6 +920,9 @@ func xfRunMulti(mc xfMultiCase, real *xfReal, dir string, slot int) (res xfMulti
 		if !ok {
 			hang(at, "multi/end/close")
 			return
+		}
+		if pn == nil {
+			rec(at, "end", fmt.Sprintf("cl:%d", h), xfMHErr(cerr, "ok"))
 		}
 		s.tw.Close()
 		slots[h] = nil
@@ -914,4 +992,196 @@ func xfMultiBefore(mc xfMultiCase) string {
 		return "<=2mp"
 	}
 	return ">2mp"
+}
+
+// ---------- the same histories through the Lean model (driver op mh.run) ----------
+
+// xfMHTrace is one history as it was run: per call the token of the driver's <steps> syntax and the token the driver
+// must answer for it (Sftp/Driver/MultiHandle.lean), with the step of the history the call belongs to.
+type xfMHTrace struct {
+	Flen  string
+	Toks  []string
+	Impl  []string
+	At    []int
+	Kinds []string
+}
+
+func (t *xfMHTrace) add(at int, kind, tok, impl string) {
+	t.Toks = append(t.Toks, tok)
+	t.Impl = append(t.Impl, impl)
+	t.At = append(t.At, at)
+	t.Kinds = append(t.Kinds, kind)
+}
+
+func (t xfMHTrace) Line() string {
+	steps := "-"
+	if len(t.Toks) > 0 {
+		steps = strings.Join(t.Toks, ";")
+	}
+	return "mh.run " + t.Flen + " " + steps
+}
+
+// xfMHKind: the call of the history after which the served file was looked at.
+func xfMHKind(mc xfMultiCase, at int) string {
+	if at >= 0 && at < len(mc.Steps) {
+		return mc.Steps[at].K
+	}
+	return "end"
+}
+
+// xfMHFlags renders OPEN pflags in the driver's letters (Append is not part of the model: the servers write where the
+// client says).
+func xfMHFlags(w uint32) string {
+	out := ""
+	for _, b := range []struct {
+		bit uint32
+		c   string
+	}{{1, "r"}, {2, "w"}, {8, "c"}, {16, "t"}, {32, "x"}} {
+		if w&b.bit != 0 {
+			out += b.c
+		}
+	}
+	return out
+}
+
+// xfMHErr: the token of a call that returned err (ok: the token of a call that returned nil). SFTP v3 has one status for
+// "exists", "bad flags" and "not through this handle": the model's classes other than notExist and closed are one.
+func xfMHErr(err error, ok string) string {
+	switch {
+	case err == nil:
+		return ok
+	case errors.Is(err, os.ErrNotExist):
+		return "notExist"
+	case errors.Is(err, os.ErrClosed):
+		return "closed"
+	}
+	return "fail"
+}
+
+func xfMHRead(n int, b []byte, err error, at string) string {
+	if err != nil && err != io.EOF {
+		return xfMHErr(err, "")
+	}
+	b = b[:max(0, min(n, len(b)))]
+	eof := 0
+	if err == io.EOF {
+		eof = 1
+	}
+	return fmt.Sprintf("%d:%d:%d@%s", n, eof, xfHash(b), at)
+}
+
+// xfMHNorm brings a token of the driver to what can be told apart on the client side of SFTP v3.
+func xfMHNorm(tok string) string {
+	switch tok {
+	case "exist", "invalid", "access", "negative":
+		return "fail"
+	}
+	return tok
+}
+
+// xfMHSame compares a driver token with the implementation's; `@*` on the implementation's side: the File offset was not
+// asked / is another property's.
+func xfMHSame(model, impl string) bool {
+	model = xfMHNorm(model)
+	if strings.HasSuffix(impl, "@*") {
+		if j := strings.LastIndexByte(model, '@'); j >= 0 {
+			model = model[:j] + "@*"
+		}
+	}
+	return model == impl
+}
+
+type xfMHItem struct {
+	mc xfMultiCase
+	tr xfMHTrace
+}
+
+type xfMHCollector struct {
+	mu    sync.Mutex
+	seen  map[string]bool
+	items []xfMHItem
+}
+
+var xfMHModel = &xfMHCollector{}
+
+func (m *xfMHCollector) add(mc xfMultiCase, tr xfMHTrace) {
+	if len(tr.Toks) == 0 {
+		return
+	}
+	k := tr.Line() + "\x00" + strings.Join(tr.Impl, ";")
+	m.mu.Lock()
+	defer m.mu.Unlock()
+	if m.seen == nil {
+		m.seen = map[string]bool{}
+	}
+	if m.seen[k] {
+		return
+	}
+	m.seen[k] = true
+	m.items = append(m.items, xfMHItem{mc: mc, tr: tr})
+}
+
+// xfMHCompare sends every history that was run (shrunk variants of failing ones included) to the driver in ONE call and
+// reports the first difference of each; of the histories that differ under one key the shortest ones are written out.
+func xfMHCompare(c *lib.Ctx) {
+	m := xfMHModel
+	m.mu.Lock()
+	items := m.items
+	m.items, m.seen = nil, nil
+	m.mu.Unlock()
+	if len(items) == 0 {
+		return
+	}
+	if c.ModelPath == "" {
+		c.R.Skip("no --model given: multi-handle histories not compared with mh.run")
+		return
+	}
+	const probe, want = "mh.run - o:0:f:rwc;w:0:3:1;o:1:f:wt;wa:1:1:9:2;ra:0:4:0;st:0", "ok;3@3;ok;1@0;3:1:209539@3;3@3"
+	sort.SliceStable(items, func(i, j int) bool { return len(items[i].tr.Toks) < len(items[j].tr.Toks) })
+	lines := []string{probe}
+	for _, it := range items {
+		lines = append(lines, it.tr.Line())
+	}
+	before := c.R.ModelCases
+	out, err := c.Model(lines)
+	if err != nil {
+		c.R.Fail(lib.Failure{Kind: "tie", Key: "c01/model-driver", What: "mh.run: " + err.Error()})
+		return
+	}
+	c.R.ModelCases = before + len(items)
+	if out[0] != want {
+		if out[0] == "bad-op" {
+			c.R.Skip("Lean driver op mh.run does not exist in this build of sftpmodel: %d multi-handle histories not compared with the model", len(items))
+		} else {
+			c.R.Skip("Lean driver op mh.run answers %q for %q where the harness expects %q: format not understood, multi-handle histories not compared with the model", out[0], probe, want)
+		}
+		c.R.ModelCases = before
+		return
+	}
+	calls, differ := 0, 0
+	for i, it := range items {
+		mod := strings.Split(out[i+1], ";")
+		tr := it.tr
+		calls += len(tr.Toks)
+		if len(mod) != len(tr.Toks) {
+			c.R.Fail(lib.Failure{Kind: "tie", Key: "c01/model-driver", What: fmt.Sprintf("mh.run answered %d tokens for %d calls (%s)", len(mod), len(tr.Toks), out[i+1]), Input: tr.Line()})
+			continue
+		}
+		for j := range mod {
+			if xfMHSame(mod[j], tr.Impl[j]) {
+				continue
+			}
+			differ++
+			small := it.mc
+			if tr.At[j]+1 < len(small.Steps) {
+				small.Steps = append([]xfMStep(nil), small.Steps[:tr.At[j]+1]...)
+			}
+			what := fmt.Sprintf("call %s (step #%d of the multi-handle history, %s) answers %s where the model of the served file system (mh.run: names -> inodes -> bytes, handles hold inodes) answers %s; the calls up to there: %s",
+				tr.Toks[j], tr.At[j], it.mc.Srv, tr.Impl[j], mod[j], "mh.run "+tr.Flen+" "+strings.Join(tr.Toks[:j+1], ";"))
+			c.R.Fail(lib.Failure{Kind: "correspondence", Key: "multi/model/" + tr.Kinds[j], What: what, Input: small,
+				Expected: strings.Join(mod[:j+1], ";"), Actual: strings.Join(tr.Impl[:j+1], ";")})
+			break
+		}
+	}
+	c.R.Note("multi-handle histories: %d histories (%d calls and looks at the served file) were also run through the Lean driver op mh.run (inode specification, Props/C01Multi.lean) in one call of the driver; %d differ", len(items), calls, differ)
 }
